@@ -150,7 +150,7 @@ fn run_model(lean: &mut Lean, w: &Workload, ids: &[u64], seqs: &[u64], fault: &s
 
 fn run_case(seed: u64, mode: &str, thorough: bool, lean: &mut Lean, hist: &mut BTreeMap<String, u64>, samples: &mut Vec<J>) -> (Vec<Failure>, bool, u64) {
     let mut fails = vec![];
-    let rot = mode == "c09";
+    let rot = mode == "c09" || mode == "c02";
     let w = wl::gen_with(seed, rot).modelled(); // transactions appear as the batch their commit emits
     let scratch = Scratch::new("flt");
     let dir = scratch.join("db");
@@ -266,6 +266,41 @@ fn run_case(seed: u64, mode: &str, thorough: bool, lean: &mut Lean, hist: &mut B
         for n in ns {
             let run = run_child(&dir, seed, rot, &[("VERIF_SHIM_KILL", n.to_string())]);
             if run.status != Some(137) { fail!("harness", "kill@{n}: child exited with {:?}", run.status); }
+            // process crash (C02): everything handed to the OS is there; every acknowledged operation up to the
+            // last one that pushes the journal buffer to the OS (any operation unless manual persist is on;
+            // a batch / transaction with a durability level; persist; journal rotation) must be recovered
+            {
+                let acked = run.results.len();
+                let mut must = 0;
+                for (i, op) in w.ops[..acked].iter().enumerate() {
+                    let pushes = match op {
+                        WOp::Insert(..) | WOp::Remove(..) | WOp::Clear(..) => !w.manual,
+                        WOp::Batch(d, it) => d.is_some() && !it.is_empty(),
+                        WOp::Persist(_) | WOp::RotateJournal => true,
+                        WOp::Tx(..) => unreachable!(),
+                    };
+                    if pushes { must = i + 1; }
+                }
+                let img = dir.with_extension("crashimg");
+                let _ = std::fs::remove_dir_all(&img);
+                copy_dir_sparse(&dir, &img);
+                *hist.entry("process-crash-images".into()).or_insert(0) += 1;
+                if must > 0 { nontrivial = true; }
+                match dump(&img, w.nks) {
+                    Err(e) => fail!("impl-vs-oracle", "process crash before syscall {n}: reopening failed: {e}"),
+                    Ok(got) => {
+                        let mut st = vec![Map::new(); w.nks];
+                        let mut ok = false;
+                        for p in 0..=w.ops.len() {
+                            if p >= must && p <= (acked + 1).min(w.ops.len()) && st == got { ok = true; break; }
+                            if p < w.ops.len() { apply(&mut st, &w.ops[p]); }
+                        }
+                        if !ok { fail!("impl-vs-oracle", "process crash before syscall {n}: the recovered content is not the state of a prefix containing the {must} operations acknowledged before the crash whose journal bytes had to be handed to the OS ({acked} acknowledged in total, database flavour {})", w.flavour); }
+                    }
+                }
+                let _ = std::fs::remove_dir_all(&img);
+                if mode == "c02" { continue; }
+            }
             // bytes known durable, per journal file: everything written to it before its last successful sync
             let mut written: BTreeMap<String, u64> = BTreeMap::new();
             let mut synced: BTreeMap<String, u64> = BTreeMap::new();
